@@ -688,6 +688,8 @@ class Parser:
             else:
                 value = buf.read(cursor, cursor + pos)
                 nxt = cursor + pos + len(marker)
+                if f.get("noconsume"):
+                    nxt = cursor + pos          # the delimiter is only looked at: it belongs to whatever comes next
             if nxt > cursor:
                 tr.spans.append((fpath, cursor, nxt))
             return value, nxt
@@ -914,6 +916,8 @@ class Encoder:
             if not isinstance(v, bytes):
                 raise TypeError("not bytes")
             d = b""
+            if f.get("noconsume"):
+                raise Undefined("consume_delimiter=False: what such a field serializes to is not fixed by any property")
             if f["mode"] == "marker" and not f.get("include"):
                 d = f["marker"]
             elif f["mode"] == "regex" and not f.get("include"):
